@@ -136,6 +136,7 @@ def gen_torch(rng, tier):
     case["xs"] = [fam.dyadic(rng, dim) for _ in range(n)]
     case["ts"] = fam.gen_targets(rng, n, ncls)
     case.update(gen_method(rng, n))
+    case["late"] = rng.random() < 0.4
     return case
 
 
@@ -195,6 +196,7 @@ def gen_same(rng, tier):
                 xs=[fam.dyadic(rng, dim) for _ in range(n)], ts=fam.gen_targets(rng, n, ncls), wrappings=wr,
                 bs=rng.choice([1, 2, 3, 5, 7, None]))
     case["eager"] = bool(any(w.startswith("torch") for w in wr) or rng.random() < 0.25)
+    case["late"] = any(w.startswith("torch") for w in wr) and rng.random() < 0.4
     if method == "Occlusion":
         if kind == "tab":
             case["patch"], case["stride"] = rng.randint(1, shape[0]), rng.randint(1, shape[0])
@@ -364,8 +366,21 @@ def nhwc_to_nchw_params(ks, shape):
     return out
 
 
-def make_wrapper(module, request):
-    """TorchWrapper with the eager side effect observed"""
+def make_wrapper(module, request, late=False):
+    """TorchWrapper with the eager side effect observed.  late: the module holds other weights while it is wrapped
+    and receives its real ones afterwards (load_state_dict, as after a fine-tuning round): the wrapper must follow."""
+    if late:
+        import copy
+        import torch
+        real = copy.deepcopy(module.state_dict())
+        with torch.no_grad():
+            for p in list(module.parameters()) + list(module.buffers()):
+                if p.dtype.is_floating_point:
+                    p.mul_(0.5).add_(1.0)
+        try:
+            return make_wrapper(module, request)
+        finally:
+            module.load_state_dict(real)
     import tensorflow as tf
     from xplique.wrappers import TorchWrapper
     before = tf.config.functions_run_eagerly()
@@ -430,7 +445,7 @@ def run_torch(case):
     n = len(case["xs"])
     x = np.array(case["xs"], np.float32).reshape([n] + shape)
     t = np.array(case["ts"], np.float32)
-    tw, before, after = make_wrapper(module, case["request"])
+    tw, before, after = make_wrapper(module, case["request"], late=bool(case.get("late")))
     try:
         tf.config.run_functions_eagerly(True)          # the wrapper cannot run inside a tf.function
         first = bool(tw.channel_first)
@@ -477,7 +492,7 @@ def build_tree(tree):
 def run_ctor(case):
     module = build_tree(case["tree"]).eval()
     import tensorflow as tf
-    tw, before, after = make_wrapper(module, case["request"])
+    tw, before, after = make_wrapper(module, case["request"], late=bool(case.get("late")))
     tf.config.run_functions_eagerly(before)
     names = [type(m).__name__ for m in module.modules()]
     return dict(channel_first=bool(tw.channel_first), modules=["Container" if nm == "Sequential" else nm for nm in names],
@@ -536,9 +551,9 @@ def build_wrapping(name, case):
     if name in ("pp", "pp1d"):
         return PredictProba(Shaped(ks, "1d" if name.endswith("1d") else "2d")), None
     if name == "torch":
-        tw, before, _ = make_wrapper(torch_fquad(ks), None)
+        tw, before, _ = make_wrapper(torch_fquad(ks), None, late=bool(case.get("late")))
         return tw, before
-    tw, before, _ = make_wrapper(torch_fquad(nhwc_to_nchw_params(ks, shape)), True)
+    tw, before, _ = make_wrapper(torch_fquad(nhwc_to_nchw_params(ks, shape)), True, late=bool(case.get("late")))
     return tw, before
 
 
